@@ -12,7 +12,9 @@ Deductive part:
                       cycle or not - the residual reported for the cycle is ||b - A xm|| / ||b|| of the iterate xm formed in
                       that cycle, xm = x0 + V y, the history entry is [m, res_ym, that residual], a cycle that does not stop
                       hands exactly its xm to the next cycle as x0, and the function returns the last cycle's (xm, res);
-Minimality of the residual over the Krylov space, monotone history, convergence within n cycles, independence of
+  core.arnoldi        (index level, all N, m, j) loop invariants of the modified Gram-Schmidt Arnoldi loop: the Arnoldi relation
+                      A v_j = sum_{i <= j+1} v_i h_ij for every column, H upper Hessenberg, frames of V and H;
+Orthonormality of the basis, minimality of the residual over the Krylov space, monotone history, convergence within n cycles, independence of
 scaling and of preconditioning are decided by the bounded stand-in on the real code (n <= 6 (8); 9 matrix classes x
 right-hand sides incl. eigenvectors and 0 x tolerances x caps 0..n x {none, left_lu} x dense/sparse x scalings 1e-6..1e6)."""
 from __future__ import annotations
@@ -132,6 +134,7 @@ def deductive(rep: Report, tier):
         run_case(rep, P, G + "solve", f"guard_square.{prec}", setup_g, post_g, lib=lib, contracts=contracts, clauses=["raises_ValueError", "nothing_called_before"])
     solve_left_lu(rep)
     core_bookkeeping(rep)
+    arnoldi_relation(rep)
     # canary: a residual formed against a different right-hand side is not accepted
     a, b, c = z3.Reals("a b c")
     rep.canary("C04.canary.other_rhs", smt.prove([a >= 0, b > 0, c > 0], a / b == a / c, 5).status == smt.REFUTED)
@@ -450,6 +453,238 @@ def core_bookkeeping(rep: Report):
         lib = tm.install(Library("idx"))
         run_case(rep, P, QN, f"bookkeeping.cap_{cap}", setup, post, lib=lib, contracts=contracts,
                  loop_rules={(QN, 0): Restart(), (QN, 1): Arnoldi()}, clauses=cl, replay=replay_solve, timeout_s=30, max_paths=800)
+
+
+# ----------------------------------------------------------------------------------------------------
+# index-level invariant of the modified Gram-Schmidt Arnoldi loop:  A V_m = V_{m+1} H   (column by column, all N, m)
+def arnoldi_relation(rep: Report):
+    """Ghost functions (a definitional extension; every (i, j) / (n, i) is written exactly once by the code):
+         VF(n, i)  entry n of the basis vector i      HF(i, j)  entry (i, j) of the Hessenberg matrix
+         AVF(j, n) entry n of  A * VF(:, j)           SG(j, i, n) = sum_{i' < i} VF(n, i') HF(i', j)   (unfolding axiom)
+       inner loop (i):   v(n) == AVF(j, n) - SG(j, i, n),  H[i', j] == HF(i', j) for i' < i,  V untouched
+       outer loop (j):   V[:, i] == VF(:, i) for i <= j (zero elsewhere), H[:, j'] == HF(:, j') for j' < j (zero elsewhere)
+       per column j:     AVF(j, n) == SG(j, j + 2, n),  i.e.  A v_j = sum_{i <= j+1} v_i h_ij   (also for the last column of the
+                         cycle, whose new vector stays in v_0..v_3)
+     Orthonormality of V and the values of H (inner products, norms) are numerics: not claimed here."""
+    from .. import idx as ix
+    from ..interp import LoopRule
+    from ..rules import _set_whole
+    from ..sym import PathAbort
+    UQ = "quatica/utils.py::"
+    QN = G + "_GMRESQsparse"
+
+    def F(name, *sorts):
+        return [z3.Function(f"{name}{c}", *sorts, z3.RealSort()) for c in range(4)]
+    I_ = z3.IntSort()
+    VF, HF, AVF, SG = F("VF", I_, I_), F("HF", I_, I_), F("AVF", I_, I_), F("SG", I_, I_, I_)
+    zi = SInt.lift
+
+    def q(fs, *a):
+        return ix.QScal(*[SReal.mk(f(*[zi(x) for x in a])) for f in fs])
+
+    def comps(fr, base, idx):           # quaternion at idx from four component arrays base0..base3
+        return ix.QScal(*[fr.vars[f"{base}{c}"].at(*idx) for c in range(4)])
+
+    class Cycles(LoopRule):
+        """for m in range(1, N+1): only a generic cycle is entered (arbitrary restart iterate); nothing is claimed across cycles."""
+        modifies = ("x0_0", "x0_1", "x0_2", "x0_3", "resv")
+
+        def havoc(self, it, fr, k):
+            if cur().ghost.get("_havoc_kind") == "exhausted":
+                raise PathAbort("cycles after the loop: not part of this obligation")
+            N = fr.vars["N"]
+            for c in range(4):
+                fr.vars[f"x0_{c}"] = ix.input_array(f"x0{c}", [N, 1])
+            fr.vars["resv"] = SymList(SInt.var("nhist"), "resv")
+
+    class Columns(LoopRule):
+        modifies = ("V0", "V1", "V2", "V3", "H0", "H1", "H2", "H3", "m", "breakdown")      # m / breakdown change only on the exit path
+
+        def closedV(self, fr, j):
+            return [(lambda vi, c=c: ix.ite(vi[1] <= j, SReal.mk(VF[c](zi(vi[0]), zi(vi[1]))), Fraction(0))) for c in range(4)]
+
+        def closedH(self, fr, j):
+            return [(lambda vi, c=c: ix.ite(sand(vi[1] < j, vi[0] <= vi[1] + 1), SReal.mk(HF[c](zi(vi[0]), zi(vi[1]))), Fraction(0))) for c in range(4)]
+
+        def check(self, fr, j, phase):
+            c = cur()
+            for cc in range(4):
+                cond, _ = ix.pointwise_eq(c, fr.vars[f"V{cc}"], self.closedV(fr, j)[cc])
+                c.require(f"inv.{phase}", cond, "basis columns <= j hold VF, later ones are still zero", key=f"arnoldi.columns.inv.{phase}.V{cc}")
+                cond, _ = ix.pointwise_eq(c, fr.vars[f"H{cc}"], self.closedH(fr, j)[cc])
+                c.require(f"inv.{phase}", cond, "Hessenberg columns < j hold HF (rows <= j'+1), everything else is zero", key=f"arnoldi.columns.inv.{phase}.H{cc}")
+
+        def establish(self, it, fr, start):
+            c = cur()
+            # naming: column 0 of V is the normalised residual; call it VF(:, 0)
+            n0 = ix.fresh_indices(c, [fr.vars["N"]], "e")[0]
+            for cc in range(4):
+                c.assume(SBool.mk(VF[cc](zi(n0), zi(0)) == SReal.lift(fr.vars[f"V{cc}"].at(n0, 0))))
+            c.ghost["establish_n0"] = n0
+            # the check below picks its own indices; the naming is per entry, so instantiate it through a closed form instead
+            for cc in range(4):
+                V = fr.vars[f"V{cc}"]
+                snap = V._snapshot()
+                cond, idx = ix.pointwise_eq(c, V, lambda vi, cc=cc, snap=snap: ix.ite(vi[1] <= 0, snap((vi[0], 0)), Fraction(0)))
+                c.require("inv.establish", cond, "only column 0 of the basis is set at entry", key=f"arnoldi.columns.inv.establish.V{cc}")
+                cond, _ = ix.pointwise_eq(c, fr.vars[f"H{cc}"], lambda vi: Fraction(0))
+                c.require("inv.establish", cond, "H is zero at entry", key=f"arnoldi.columns.inv.establish.H{cc}")
+
+        def havoc(self, it, fr, j):
+            if cur().ghost.get("_havoc_kind") == "exhausted":
+                raise PathAbort("after the Arnoldi loop: not part of this obligation")
+            for cc in range(4):
+                _set_whole(fr.vars[f"V{cc}"], self.closedV(fr, j)[cc])
+                _set_whole(fr.vars[f"H{cc}"], self.closedH(fr, j)[cc])
+            cur().ghost["col_j"] = j
+
+        def preserve(self, it, fr, j):
+            c = cur()
+            g = c.ghost
+            m, N = fr.vars["m"], fr.vars["N"]
+            nu = fr.vars["H0"].at(j + 1, j)
+            n1 = ix.fresh_indices(c, [N], "r")[0]
+            # naming of the new basis vector: VF(n, j+1) is what the code stores (column j+1 of V, or v_0..v_3 for the last column)
+            last = c.decide(SBool.mk(zi(j) == zi(m - 1)))
+            for cc in range(4):
+                newv = fr.vars[f"v_{cc}"].at(n1, 0) if last else fr.vars[f"V{cc}"].at(n1, j + 1)
+                c.assume(SBool.mk(VF[cc](zi(n1), zi(j + 1)) == SReal.lift(newv)))
+                c.assume(SBool.mk(HF[cc](zi(j + 1), zi(j)) == SReal.lift(fr.vars[f"H{cc}"].at(j + 1, j))))
+            # unfolding of the ghost sum at the sub-diagonal term
+            c.assume(ix.scal_eq(q(SG, j, j + 2, n1), q(SG, j, j + 1, n1) + q(VF, n1, j + 1) * q(HF, j + 1, j)))
+            pre = g["v_after_inner"]          # v(n) right after the orthogonalisation loop, as a function of n
+            c.require("step", ix.scal_eq(q(VF, n1, j + 1) * q(HF, j + 1, j), pre(n1)), "the new basis vector times its norm is the orthogonalised vector", key="arnoldi.step.normalisation")
+            c.require("step", ix.scal_eq(q(AVF, j, n1), q(SG, j, j + 2, n1)), "Arnoldi relation for column j:  A v_j = sum_{i <= j+1} v_i h_ij", key="arnoldi.step.relation")
+            if not last:
+                # frame + naming instantiated pointwise: compare with the closed form at j+1, except column j+1 / H column j which are named now
+                for cc in range(4):
+                    V, H = fr.vars[f"V{cc}"], fr.vars[f"H{cc}"]
+                    sv, sh = V._snapshot(), H._snapshot()
+                    cond, _ = ix.pointwise_eq(c, V, lambda vi, cc=cc, sv=sv: ix.ite(SBool.mk(zi(vi[1]) == zi(j + 1)), sv(tuple(vi)), self.closedV(fr, j)[cc](vi)))
+                    c.require("inv.preserve", cond, "no basis column other than j+1 is written", key=f"arnoldi.columns.inv.preserve.frame.V{cc}")
+                    cond, _ = ix.pointwise_eq(c, H, lambda vi, cc=cc, sh=sh: ix.ite(SBool.mk(zi(vi[1]) == zi(j)), ix.ite(vi[0] <= j + 1, sh(tuple(vi)), Fraction(0)), self.closedH(fr, j)[cc](vi)))
+                    c.require("inv.preserve", cond, "only column j of H is written, rows <= j+1", key=f"arnoldi.columns.inv.preserve.frame.H{cc}")
+
+    class Gram(LoopRule):
+        modifies = ("v_0", "v_1", "v_2", "v_3", "H0", "H1", "H2", "H3")
+
+        def closed_v(self, fr, i):
+            j = fr.vars["j"]
+            return lambda n: q(AVF, j, n) - (ix.QScal(Fraction(0)) if (isinstance(i, int) and i == 0) else ix.ite(SBool.mk(zi(i) == zi(0)), ix.QScal(Fraction(0)), q(SG, j, i, n)))
+
+        def closedH(self, fr, i):
+            j = fr.vars["j"]
+            base = Columns().closedH(fr, j)
+            return [(lambda vi, c=c: ix.ite(sand(SBool.mk(zi(vi[1]) == zi(j)), vi[0] < i), SReal.mk(HF[c](zi(vi[0]), zi(vi[1]))), base[c](vi))) for c in range(4)]
+
+        def check(self, fr, i, phase):
+            c = cur()
+            N = fr.vars["N"]
+            n2 = ix.fresh_indices(c, [N], "g")[0]
+            have = comps(fr, "v_", (n2, 0))
+            c.require(f"inv.{phase}", ix.scal_eq(have, self.closed_v(fr, i)(n2)), "v = A v_j - sum_{i' < i} v_i' h_i'j", key=f"arnoldi.gram.inv.{phase}.v")
+            for cc in range(4):
+                cond, _ = ix.pointwise_eq(c, fr.vars[f"H{cc}"], self.closedH(fr, i)[cc])
+                c.require(f"inv.{phase}", cond, "rows < i of column j of H hold HF; the rest of H is unchanged", key=f"arnoldi.gram.inv.{phase}.H{cc}")
+
+        def establish(self, it, fr, start):
+            self.check(fr, start, "establish")
+
+        def havoc(self, it, fr, i):
+            c = cur()
+            N = fr.vars["N"]
+            cv = self.closed_v(fr, i)
+            for cc in range(4):
+                fr.vars[f"v_{cc}"] = ix.IArr.from_fn([N, 1], lambda vi, cc=cc: cv(vi[0]).c[cc])
+                _set_whole(fr.vars[f"H{cc}"], self.closedH(fr, i)[cc])
+            if c.ghost.get("_havoc_kind") == "exhausted":
+                c.ghost["v_after_inner"] = cv
+
+        def preserve(self, it, fr, i):
+            c = cur()
+            j, N = fr.vars["j"], fr.vars["N"]
+            # naming of the coefficient just stored, and unfolding of the ghost sum at (j, i)
+            for cc in range(4):
+                c.assume(SBool.mk(HF[cc](zi(i), zi(j)) == SReal.lift(fr.vars[f"H{cc}"].at(i, j))))
+            n3 = ix.fresh_indices(c, [N], "u")[0]
+            prev = ix.ite(SBool.mk(zi(i) == zi(0)), ix.QScal(Fraction(0)), q(SG, j, i, n3))
+            c.assume(ix.scal_eq(q(SG, j, i + 1, n3), prev + q(VF, n3, i) * q(HF, i, j)))
+            have = comps(fr, "v_", (n3, 0))
+            c.require("inv.preserve", ix.scal_eq(have, q(AVF, j, n3) - q(SG, j, i + 1, n3)), "v = A v_j - sum_{i' <= i} v_i' h_i'j after the projection is subtracted", key="arnoldi.gram.inv.preserve.v")
+            for cc in range(4):
+                cond, _ = ix.pointwise_eq(c, fr.vars[f"H{cc}"], self.closedH(fr, i + 1)[cc])
+                c.require("inv.preserve", cond, "only H[i, j] is written", key=f"arnoldi.gram.inv.preserve.H{cc}")
+
+    # kernel contracts at index level for the three call patterns of the loop (C01 proves the kernel against the Hamilton spec)
+    def k_times_idx(I, args, kwargs):
+        B, C = args[:4], args[4:8]
+        c = cur()
+        g = c.ghost
+        if all(isinstance(x, ix.IArr) for x in B + C):
+            rB, cB = B[0].vshape
+            rC, cC = C[0].vshape
+            inner_is_one = isinstance(cB, int) and cB == 1
+            if inner_is_one:
+                raise OutOfReach("outer-product call pattern not expected here")
+            j = g.get("col_j")
+            is_col = j is not None and isinstance(cC, int) and cC == 1 and c.valid(SBool.mk(zi(rB) == zi(cB))) is True and "in_column_body" not in g
+            if is_col:
+                # A * V[:, j]: name the result AVF(j, .) after checking that the argument is column j of the basis (= VF(:, j))
+                n4 = ix.fresh_indices(c, [rC], "a")[0]
+                ok = sand(*[SBool.mk(SReal.lift(C[cc].at(n4, 0)) == VF[cc](zi(n4), zi(j))) for cc in range(4)])
+                c.require("contract.pre", ok, "the kernel is applied to column j of the basis", key="arnoldi.kernel.A_times_column_j")
+                g["in_column_body"] = True
+                return tuple(ix.IArr.from_fn([rB, 1], lambda vi, cc=cc: SReal.mk(AVF[cc](zi(j), zi(vi[0])))) for cc in range(4))
+            if isinstance(rB, int) and rB == 1 and isinstance(cC, int) and cC == 1:
+                # inner product <v_i, v>: some quaternion (its value is numerics)
+                tag = c.fresh_name("ip")
+                return tuple(ix.IArr.from_fn([1, 1], lambda vi, cc=cc: SReal.var(f"{tag}.{cc}")) for cc in range(4))
+            # A * x0 (restart residual) and anything of the same shape pattern: arbitrary result of the right shape
+            tag = c.fresh_name("prod")
+            fs = [z3.Function(f"{tag}.{cc}", I_, I_, z3.RealSort()) for cc in range(4)]
+            return tuple(ix.IArr.from_fn([rB, cC], lambda vi, cc=cc: SReal.mk(fs[cc](zi(vi[0]), zi(vi[1])))) for cc in range(4))
+        if all(isinstance(x, ix.IArr) for x in B) and all(is_real(x) for x in C):
+            # column times a quaternion scalar from the right: entrywise Hamilton product (C01: scalar path of the kernel)
+            h = ix.QScal(*C)
+            snaps = [b._snapshot() for b in B]
+            return tuple(ix.IArr.from_fn(list(B[0].vshape), lambda vi, cc=cc: (ix.QScal(*[s_(tuple(vi)) for s_ in snaps]) * h).c[cc]) for cc in range(4))
+        raise PathAbort("kernel call pattern beyond the Arnoldi loop")
+
+    def is_real(x):
+        from ..sym import is_reallike
+        return is_reallike(x)
+
+    def k_norm_idx(I, args, kwargs):
+        c = cur()
+        from ..term import NPFloat
+        nu = NPFloat(z3.Real(c.fresh_name("nrm")))      # numpy float64: dividing by it never raises
+        c.assume(nu >= 0)
+        return nu
+
+    def abort(*a, **k):
+        raise PathAbort("beyond the Arnoldi loop")
+
+    def setup(I, ctx):
+        (n,) = dims(ctx, "n")
+        A = [ix.input_array(f"A{c}", [n, n]) for c in range(4)]
+        b = [ix.input_array(f"b{c}", [n, 1]) for c in range(4)]
+        tol, K = SReal.var("tol"), SInt.var("maxit")
+        slf = mk_self(I, "QGMRESSolver", tol=tol, max_iter=None, verbose=False, preconditioner="none")
+        return [slf] + A + b + [tol, K], {}, None
+
+    def post(I, ctx, outcome, val, aux):
+        return []
+    lib = Library("idx")
+    for nm in ("column_stack", "vstack"):
+        lib.np.table[nm] = abort
+    contracts = {UQ + "timesQsparse": k_times_idx, UQ + "normQsparse": k_norm_idx, UQ + "Hess_QR_ggivens": abort, UQ + "A2A0123": abort, UQ + "UtriangleQsparse": abort}
+    n_before = len(rep.obligations)
+    run_case(rep, P, QN, "arnoldi", setup, post, lib=lib, contracts=contracts,
+             loop_rules={(QN, 0): Cycles(), (QN, 1): Columns(), (QN, 2): Gram()}, clauses=[], replay=replay_solve, timeout_s=60, max_paths=1500)
+    got = {o.id for o in rep.obligations[n_before:]}
+    for need in ("arnoldi.step.relation", "arnoldi.step.normalisation", "arnoldi.gram.inv.preserve.v"):
+        if not any(need in i for i in got):
+            rep.add(Obligation(f"{P}._GMRESQsparse.arnoldi.{need}.reached", QN, "all-shapes", smt.UNDECIDED, "none", 0.0, {"reason": "obligation was not generated (vacuity guard)"}))
 
 
 # ----------------------------------------------------------------------------------------------------
